@@ -1,6 +1,6 @@
 (* trxcon TRXC response parser (trx_ctrl_read_cb) and command printers: safety conditions, the defects, acceptance of well-formed replies (C05, C14) *)
 From Coq Require Import ZArith List Bool Lia ZifyBool.
-From OBB Require Import Base.Range Gen.TrxIfConst Model.Trxd Model.TrxIf Proofs.TrxIfP.
+From OBB Require Import Base.Range Gen.TrxIfConst Model.Trxd Model.TrxIf Proofs.TrxdBase Proofs.TrxIfP.
 Import ListNotations.
 Open Scope Z_scope.
 Ltac Zify.zify_post_hook ::= Z.to_euclidean_division_equations.
@@ -231,3 +231,153 @@ Proof.
   rewrite scan_d_dec by assumption.
   destruct (negb (st =? 0) && crit); [reflexivity|]. reflexivity.
 Qed.
+
+(* ---------------- the commands trxcon emits ---------------- *)
+Definition verbs : list (list Z) := [v_ECHO; v_POWEROFF; v_POWERON; v_MEASURE; v_SETSLOT; v_RXTUNE; v_TXTUNE; v_SETTA; v_SETFH].
+
+Lemma ctrl_cmd_verb V args : no_nul V -> (4 + length V <= 1022)%nat ->
+  firstn (length V) (skipn 4 (cstr0 (c_ctrl_cmd V args))) = V.
+Proof.
+  intros HV Hl.
+  assert (Hgen : forall X, firstn (length V) (skipn 4 (cstr0 (firstn 1022 ((s_CMD ++ V) ++ X)))) = V).
+  { intros X. rewrite firstn_app_le by (rewrite app_length; cbn [length s_CMD]; lia).
+    rewrite cstr0_app.
+    - rewrite <- app_assoc. change 4%nat with (length s_CMD). rewrite skipn_app_exact. apply firstn_app_exact. reflexivity.
+    - unfold no_nul. apply Forall_app. split; [unfold s_CMD; repeat constructor; lia|exact HV]. }
+  unfold c_ctrl_cmd. destruct gen_trxif_consts as [_ [_ [_ [_ [_ [_ ->]]]]]]. change (Z.to_nat (1024 - 2)) with 1022%nat.
+  destruct args as [|a args].
+  - rewrite <- (app_nil_r (s_CMD ++ V)). apply Hgen.
+  - replace (s_CMD ++ V ++ [SP] ++ a :: args) with ((s_CMD ++ V) ++ [SP] ++ a :: args) by (rewrite <- app_assoc; reflexivity). apply Hgen.
+Qed.
+
+Lemma verbs_ok V : In V verbs -> no_nul V /\ (4 + length V <= 1022)%nat /\ verb_chars V.
+Proof.
+  unfold verbs. intros H. repeat (destruct H as [<- | H]; [unfold no_nul, verb_chars; split; [repeat constructor; lia|split; [cbn; lia|repeat constructor; lia]]|]).
+  destruct H.
+Qed.
+
+Ltac verb_goal := first [apply ctrl_cmd_verb; apply verbs_ok; unfold verbs; cbn [In]; tauto | reflexivity].
+Ltac one_cmd V := intros [E | []]; injection E as <- <-; exists V; split; [unfold verbs; cbn [In]; tauto|]; split; [verb_goal|].
+
+(* every command text trxcon queues is "CMD <verb>[ <args>]" with one of the nine verbs; only SETTA is not critical *)
+Lemma emitted_verb c rc q crit text : c_phyif_cmd c = CmdQ rc q -> In (crit, text) q ->
+  exists V, In V verbs /\ firstn (length V) (skipn 4 (cstr0 text)) = V /\ (crit = false <-> V = v_SETTA).
+Proof.
+  intros Hc Hin. destruct c as [| | |arfcn|arfcn|hsn maio ma|tn pchan|ta|ty]; cbn [c_phyif_cmd] in Hc.
+  - injection Hc as <- <-. destruct Hin as [E | Hin].
+    + injection E as <- <-. exists v_POWEROFF. split; [unfold verbs; cbn [In]; tauto|]. split; [verb_goal|]. split; discriminate.
+    + revert Hin. one_cmd v_ECHO. split; discriminate.
+  - injection Hc as <- <-. revert Hin. one_cmd v_POWERON. split; discriminate.
+  - injection Hc as <- <-. revert Hin. one_cmd v_POWEROFF. split; discriminate.
+  - unfold c_cmd_freq in Hc. destruct (_ =? 65535); injection Hc as <- <-; [destruct Hin|]. revert Hin. one_cmd v_MEASURE. split; discriminate.
+  - unfold c_cmd_freq in Hc. destruct (arfcn2freq10 arfcn false =? 65535); cbn [negb Z.eqb] in Hc.
+    + change (negb (E_NOTSUP =? 0)) with true in Hc. cbv iota in Hc. injection Hc as <- <-. destruct Hin.
+    + change (negb (0 =? 0)) with false in Hc. cbv iota in Hc.
+      destruct (arfcn2freq10 arfcn true =? 65535); injection Hc as <- <-; cbn [app] in Hin.
+      * revert Hin. one_cmd v_RXTUNE. split; discriminate.
+      * destruct Hin as [E | Hin].
+        { injection E as <- <-. exists v_RXTUNE. split; [unfold verbs; cbn [In]; tauto|]. split; [verb_goal|]. split; discriminate. }
+        { revert Hin. one_cmd v_TXTUNE. split; discriminate. }
+  - destruct ma as [|a ma]; [injection Hc as <- <-; destruct Hin|].
+    destruct (c_setfh_ma (a :: ma) (trxc_buf_size - 24 - 1) []) as [rc' txt].
+    destruct (negb (rc' =? 0)); injection Hc as <- <-; [destruct Hin|]. revert Hin. one_cmd v_SETFH. split; discriminate.
+  - destruct (nth_error chan_types _); [|discriminate]. injection Hc as <- <-. revert Hin. one_cmd v_SETSLOT. split; discriminate.
+  - injection Hc as <- <-. revert Hin. one_cmd v_SETTA. split; reflexivity.
+  - injection Hc as <- <-. destruct Hin.
+Qed.
+
+Lemma dispatch_nonmeasure V rest ext st : In V verbs -> V <> v_MEASURE -> exists a, dispatch ext (V ++ rest) st = CrAccepted st a.
+Proof.
+  unfold verbs. intros H Hm. repeat (destruct H as [<- | H]; [try (eexists; reflexivity); congruence|]). destruct H.
+Qed.
+
+Definition accepted_or_rejected (r : ctrl_res) (crit : bool) (st : Z) : Prop :=
+  match r with
+  | CrAccepted s _ => s = st /\ (st = 0 \/ crit = false)
+  | CrRejected s => s = st /\ st <> 0 /\ crit = true
+  | _ => False
+  end.
+
+(* C05 (trxcon side): whichever command trxcon has emitted, the reply "RSP <verb> <status>[ <anything>]" is matched (never Mismatch,
+   never a crash) and decided by the status alone: accepted if 0 or the command is not critical (SETTA), else rejected.
+   (MEASURE with status 0 goes on to parse its result: ctrl_measure_wellformed.) *)
+Theorem c_ctrl_accepts_wellformed c rc q crit text st tail :
+  c_phyif_cmd c = CmdQ rc q -> In (crit, text) q ->
+  -2147483648 <= st <= 2147483647 -> not_digit_head tail ->
+  exists V, In V verbs /\ firstn (length V) (skipn 4 (cstr0 text)) = V /\
+    ((length (s_RSP ++ V ++ [SP] ++ dec_d st ++ tail) <= 1023)%nat -> V <> v_MEASURE \/ st <> 0 ->
+     accepted_or_rejected (c_ctrl_rsp (Some (crit, text)) (s_RSP ++ V ++ [SP] ++ dec_d st ++ tail)) crit st).
+Proof.
+  intros Hc Hin Hst Htail. destruct (emitted_verb _ _ _ _ _ Hc Hin) as [V [HV [Hpre Hcrit]]].
+  exists V. split; [exact HV|]. split; [exact Hpre|]. intros Hlen Hcase.
+  destruct (verbs_ok V HV) as [_ [_ Hvc]].
+  rewrite (ctrl_rsp_wellformed crit text V st tail Hvc Hpre Hst Htail Hlen).
+  set (ext := (s_RSP ++ V ++ [SP] ++ dec_d st ++ tail) ++ [0]). clearbody ext.
+  set (cmd4 := skipn 4 (cstr0 text)) in *.
+  assert (Hc4 : cmd4 = V ++ skipn (length V) cmd4) by (rewrite <- Hpre at 1; symmetry; apply firstn_skipn).
+  destruct (st =? 0) eqn:E0; cbn [negb andb].
+  - assert (st = 0) by lia. subst st. destruct Hcase as [Hm | Hm]; [|congruence].
+    rewrite Hc4. destruct (dispatch_nonmeasure V (skipn (length V) cmd4) ext 0 HV Hm) as [a Ha]. rewrite Ha. cbn. auto.
+  - destruct crit; cbn [accepted_or_rejected].
+    + split; [reflexivity|]. split; [lia|reflexivity].
+    + assert (HVt : V = v_SETTA) by (apply Hcrit; reflexivity).
+      assert (Hm : V <> v_MEASURE) by (rewrite HVt; discriminate).
+      rewrite Hc4. destruct (dispatch_nonmeasure V (skipn (length V) cmd4) ext st HV Hm) as [a Ha]. rewrite Ha. cbn. auto.
+Qed.
+
+(* ---------------- MEASURE: "RSP MEASURE 0 <kHz> <dB>" ---------------- *)
+Lemma scan_u_dec n t : 0 <= n < 4294967296 -> not_digit_head t -> scan_u (dec_u n ++ t) = Some (n, t).
+Proof.
+  intros Hn Ht. unfold scan_u, scan_num.
+  destruct (dec_u_scan n t ltac:(lia) Ht) as [cnt [Htd [Hd Hne]]].
+  destruct (dec_u n) as [|c l] eqn:Edu; [congruence|]. cbn [app] in *.
+  assert (Hc : 48 <= c <= 57) by (inversion Hd; assumption).
+  rewrite skip_ws_nonspace by (unfold is_space; lia).
+  destruct (c =? 45) eqn:E45; [lia|]. destruct (c =? 43) eqn:E43; [lia|]. rewrite Htd.
+  destruct (n >? 18446744073709551615) eqn:E1; [lia|]. unfold u32. f_equal. f_equal. lia.
+Qed.
+Lemma scan_d_sp s : scan_d (SP :: s) = scan_d s.
+Proof. reflexivity. Qed.
+
+Theorem ctrl_measure_wellformed cmdbuf khz dbm tail :
+  firstn 7 (skipn 4 (cstr0 cmdbuf)) = v_MEASURE ->
+  0 <= khz < 4294967296 -> -2147483648 <= dbm <= 2147483647 -> not_digit_head tail ->
+  let d := s_RSP ++ v_MEASURE ++ [SP] ++ dec_d 0 ++ [SP] ++ dec_u khz ++ [SP] ++ dec_d dbm ++ tail in
+  (length d <= 1023)%nat ->
+  c_ctrl_rsp (Some (true, cmdbuf)) d =
+    CrAccepted 0 (ActMeasure (u16 (khz / 100)) (match freq102arfcn (u16 (khz / 100)) with Some a => Some (a, dbm) | None => None end)).
+Proof.
+  intros Hcmd Hk Hdbm Htail d Hlen. subst d.
+  assert (HV : In v_MEASURE verbs) by (unfold verbs; cbn [In]; tauto).
+  destruct (verbs_ok _ HV) as [_ [_ Hvc]].
+  pose proof (ctrl_rsp_wellformed true cmdbuf v_MEASURE 0 ([SP] ++ dec_u khz ++ [SP] ++ dec_d dbm ++ tail) Hvc Hcmd ltac:(lia)) as H.
+  cbv zeta in H. rewrite H; [|cbn; unfold SP; lia|exact Hlen]. clear H.
+  change (negb (0 =? 0) && true) with false. cbv iota.
+  unfold dispatch. rewrite <- (firstn_skipn 7 (skipn 4 (cstr0 cmdbuf))), Hcmd.
+  change (strncmp_eq (v_MEASURE ++ _) s_POWERON 7) with false. change (strncmp_eq (v_MEASURE ++ _) s_POWEROFF 8) with false.
+  change (strncmp_eq (v_MEASURE ++ _) s_MEASURE 7) with true. cbv iota.
+  unfold c_measure_rsp.
+  change (skipn 14 ((s_RSP ++ v_MEASURE ++ [SP] ++ dec_d 0 ++ [SP] ++ dec_u khz ++ [SP] ++ dec_d dbm ++ tail) ++ [0]))
+    with ((dec_u khz ++ [SP] ++ dec_d dbm ++ tail) ++ [0]).
+  rewrite cstr_app0.
+  destruct (dec_u_scan khz [] ltac:(lia) I) as [_ [_ [Hdk _]]]. destruct (dec_d_chars dbm Hdbm) as [Hdc _].
+  replace (dec_u khz ++ [SP] ++ dec_d dbm ++ tail) with ((dec_u khz ++ [SP] ++ dec_d dbm) ++ tail) by (repeat rewrite <- app_assoc; reflexivity).
+  rewrite cstr0_app.
+  2:{ unfold no_nul. apply Forall_app. split; [eapply Forall_impl; [|exact Hdk]; cbv beta; intros; lia|].
+      apply Forall_app. split; [unfold SP; repeat constructor; lia|]. eapply Forall_impl; [|exact Hdc]. cbv beta. intros; lia. }
+  repeat rewrite <- app_assoc.
+  rewrite scan_u_dec by (try lia; cbn; unfold SP; lia).
+  cbn [app]. rewrite scan_d_sp.
+  assert (Ht' : not_digit_head (cstr0 tail)).
+  { destruct tail as [|c t]; [exact I|]. cbn [cstr0]. destruct (c =? 0); [exact I|]. exact Htail. }
+  rewrite scan_d_dec by assumption.
+  destruct (freq102arfcn _); reflexivity.
+Qed.
+
+(* non-vacuity: a concrete exchange *)
+Example ctrl_accept_example :
+  c_phyif_cmd PPowerOn = CmdQ 0 [(true, str_CMD_POWERON)]
+  /\ c_ctrl_rsp (Some (true, str_CMD_POWERON)) (str_RSP_POWERON ++ [32; 48; 0]) = CrAccepted 0 ActPowerOn
+  /\ c_ctrl_rsp (Some (true, str_CMD_POWERON)) (str_RSP_POWERON ++ [32; 49; 0]) = CrRejected 1
+  /\ c_ctrl_rsp (Some (true, str_CMD_MEASURE)) (str_RSP_MEASURE_0 ++ [32; 57; 51; 53; 50; 48; 48; 32; 45; 55; 55; 0]) = CrAccepted 0 (ActMeasure 9352 (Some (1, -77))).
+Proof. repeat split; vm_compute; reflexivity. Qed.
